@@ -4,6 +4,8 @@ import json, subprocess
 checks = {
  "C01": ("exploration", "Seeded simulation of TransactionSet histories against the real datastore, tree, cache (badger) and schema store on a fake clock; the device state is compared with an executable merge model after every accepted transaction. Sampling, not proof: thousands of distinct histories per minute.", "4 C01"),
  "C02": ("exploration", "Same simulated histories; the complete intended store is dumped through the undecorated cache client after every step and compared, entry by entry, with the model's last accepted version of every intent.", "4 C02"),
+ "C03": ("exploration", "Histories over a schema exercising every constraint class with dry runs, invalid values (0/8/20 % per draw) and an invalid replace intent; rejected and dry-run calls must cause no device call and leave both stores identical; a dry run followed by the same request for real must send exactly what was reported.", "4 C03"),
+ "C04": ("exploration", "Same histories with validator switches drawn per run; the verdict is compared with the harness's own constraint evaluator over the configuration the merge model predicts, and (metamorphic) with the verdict for that configuration flattened into one intent on a fresh empty datastore.", "4 C04"),
  "C05": ("exploration", "Histories plus one unconfirmed transaction ended by cancel or by fake-clock expiry; intended store and touched device paths compared with the snapshot from before the transaction.", "4 C05"),
  "C06": ("exploration", "Seeded operation sequences (Set valid/invalid/dry-run/device-error, Confirm/Cancel with matching/stale/unknown ids, waits around the deadline) on the fake clock, judged by a transaction-slot reference model with a liveness probe.", "4 C06"),
  "C09": ("exploration", "Histories with verbatim re-submissions in every input form; the proto, JSON, JSON_IETF and 8 XML renderings of the same tree instance must be empty and both stores unchanged.", "4 C09"),
@@ -11,6 +13,8 @@ checks = {
  "C13": ("exploration", "Scripted device notifications (re-sync cycles, on-change updates/deletes, JSON blobs, state leaves) into the real Datastore.Sync with 1/2/16 write workers; every cache write of a sync worker parks in a decorator and the seeded scheduler chooses the completion order; CONFIG/STATE compared with a sequential running-mirror model at quiescence.", "4 C13"),
  "C18": ("fault_enumeration", "The real ncTarget.Set is driven around an in-process netconf.Driver with XML change documents captured from real trees; for both commit-datastore settings, the 8 option combinations and every failure point of the driver call sequence (with and without rpc-error warnings) - enumerated completely per document - the recorded call sequence and the fake device's candidate are judged.", "4 C18"),
  "C19": ("exploration", "Server.GetData/Subscribe/WatchDeviations run against fake server streams under the seeded scheduler; Send failures at every index, stalls, slow consumers and client cancellation at every tick; bounded return after the stream ends, no panic, no goroutine left at bubble end (synctest).", "4 C19"),
+ "C14": ("exploration", "GetData through Server.GetData with a fake stream for drawn path sets x 4 encodings x MAIN/INTENDED selections after histories with prefix-related keys and names; the answer is compared with the actual store content (direct dump) filtered element-wise; unknown paths must fail without data.", "4 C14"),
+ "C15": ("exploration", "After histories and drift written into the CONFIG store the real DeviationMgr runs on the fake clock; the messages of one cycle on a fake WatchDeviations stream are compared as a multiset with a deviation model computed from dumps of both stores.", "4 C15"),
  "C16": ("exploration", "Seeded cooperative scheduler over yield points at every transaction-manager lock acquisition and timer event: Confirm/Cancel/expiry/competing Set interleavings on the real Datastore; exactly-once, agreement with client answers, process survival, porcupine linearizability against the slot model.", "4 C16"),
 }
 def hooks_commits():
